@@ -200,7 +200,8 @@ PROPS = {
     "C05": P("exploration", model_variants=["spec", "impl"], streams=["histories"], trusted_base=TB_CORR, coq_files=["Properties_C06.v"]),
     "C06": P("proof", ["histories"], trusted_base=TB_CORR),
     "C07": P("proof", model_variants=["spec", "impl"], streams=["host"], trusted_base=TB_CORR + ["ICU laws H_ascii and H_keep (Properties_C07.v) are explicit premises of C07_host / C07_fastpath / C07_precheck; they are sampled against the real ICU by the host stream, not proved"]),
-    "C08": P("exploration", model_variants=["spec", "impl"], streams=["parse", "setters", "histories"], trusted_base=TB_CORR),
+    "C08": P("proof", model_variants=["spec", "impl"], streams=["parse", "setters", "histories"],
+             trusted_base=TB_CORR + ["idna_ascii_lower (ICU returns ASCII without upper-case letters) is an explicit premise of the C08 theorems"]),
     "C09": P("exploration", model_variants=["spec", "impl"], streams=["canparse"], trusted_base=TB_CORR),
     "C10": P("proof", ["encodings"], trusted_base=TB_CORR),
     "C11": P("proof", ["ipv4"], trusted_base=TB_CORR),
